@@ -91,6 +91,12 @@ def run(ctx):
         except ValueError:
             return False
     h7r = [h for h in h7 if recover_shape(h)]
+    # directed: packs that are already older than keep-delete when they get marked, and a second prune right after the
+    # first one - the marking time, not the creation time, starts keep-delete (seeded change C02-mark-time-not-reset)
+    aged = []
+    for v, w in (("v1", "v2"), ("v2", "v1"), ("v1", "v3")):
+        aged.append([["backup", v], ["tick"], ["forget", v], ["prune", False], ["prune", False]])
+        aged.append([["backup", v], ["backup", w], ["tick"], ["forget", v], ["prune", False], ["prune", False], ["backup", v]])
     # directed: a backup through a fresh handle whose parent snapshot was written by an overlapping (stale) backup
     # and shares an unchanged sub-directory with it
     directed = []
@@ -107,6 +113,7 @@ def run(ctx):
     progs = [to_program(rng, h, "c02-%d-%d" % (ctx.seed, i), ctx.seed * 100000 + i) for i, h in enumerate(hs)]
     progs += [to_program(rng, h, "c02-%d-d%d" % (ctx.seed, i), ctx.seed * 100000 + 90000 + i, vers=DIRECTED_VERS)
               for i, h in enumerate(directed)]
+    progs += [to_program(rng, h, "c02-%d-a%d" % (ctx.seed, i), ctx.seed * 100000 + 95000 + i) for i, h in enumerate(aged)]
     by_id = {p["id"]: p for p in progs}
     recs, r = run_trace(ctx, progs, "main", timeout=6000)
     ctx.traces += len(progs)
